@@ -520,9 +520,7 @@ def run_case(case, stats):
         # later evaluations built on the (now cached) materializations of the input tree return the cached rows
         if not mode:
             reuse_cached_materializations(prog, rels, leaves, env, proc, stats, ctx)
-        if "mark" not in kinds(prog):
-            # (backtracking through a user-defined marker is not implemented by the iteration engine; not this property)
-            refine_processed(prog, leaves, universe, result, env, proc, stats, ctx)
+        refine_processed(prog, leaves, universe, result, env, proc, stats, ctx)
         if not mode and tree.engine is not env.sql and ncalls == 1:
             bare_engine_probe(tree, truth, env, proc, stats, ctx)
         # hook audit
